@@ -374,6 +374,36 @@ def late_writes(ctx, report=None):
                                          'weights written after the mode switch leak through the masks')
                     elif r is not None:
                         report(cfg, extra, r)
+    # batch norm inside the blocks, training mode, a batch of ONE row: rejected by torch's batch norm — or, if a value comes back, autoregressive
+    for copy in ('transforms', 'nde'):
+        for (F, H, blocks, residual) in ((3, 6, 1, False), (4, 8, 2, True), (2, 4, 1, False)):
+            cfg = dict(copy=copy, F=F, H=H, blocks=blocks, m=2, residual=residual, random=False, C=0, bn=True, seed=F + H)
+            extra = dict(act='tanh', train=True, dropout=0.0, wseed=F + H, B=1)
+            try:
+                r = oracle_case(cfg, **extra)
+            except Exception:
+                r = None          # the call is refused (ValueError of torch.nn.BatchNorm1d): nothing to be autoregressive
+            if report is None:
+                ctx.case(key=('late-write', copy, F, H, blocks, residual, 'bn-one-row'), branch='late-write/bn-single-row-train', nontrivial=True)
+                if r is not None:
+                    ctx.disagree('made/late-write', dict(cfg, **extra), 'output block %s depends on input %s' % (r['i'], r['j']), 'autoregressive or refused',
+                                 'batch norm in training mode on a single row: the value returned is not autoregressive')
+            elif r is not None:
+                report(cfg, extra, r)
+    # random masks: a checkpoint restored into a network built under another seed
+    for copy in ('transforms', 'nde', 'mog'):
+        for (F, H, blocks) in ((3, 7, 1), (4, 9, 2), (5, 6, 1)):
+            for sd in (1, 2, 3):
+                cfg = dict(copy=copy, F=F, H=H, blocks=blocks, m=3 if copy == 'mog' else 2, residual=False, random=True, C=0, bn=False, seed=100 * sd + F)
+                extra = dict(act='tanh', train=False, dropout=0.0, wseed=F + H + sd, late='reload')
+                r = oracle_case(cfg, **extra)
+                if report is None:
+                    ctx.case(key=('late-write', copy, F, H, blocks, 'random', 'reload', sd), branch='late-write/reload-random-mask', nontrivial=True)
+                    if r is not None:
+                        ctx.disagree('made/late-write', dict(cfg, **extra), 'output block %s depends on input %s' % (r['i'], r['j']), 'autoregressive',
+                                     'a network with random masks restored from a checkpoint into a separately built instance is not autoregressive')
+                elif r is not None:
+                    report(cfg, extra, r)
 
 
 # ---- the property's own oracle on the implementation ---------------------------------------------------------
@@ -387,6 +417,13 @@ def oracle_case(cfg, act='relu', train=False, dropout=0.0, wseed=0, B=3, transfo
     moreover evaluated once before the weights were written"""
     try:
         net = construct(cfg, activation=ORACLE_ACTS[act], dropout=dropout)
+        if late == 'reload':
+            # a checkpoint of THIS network restored into a separately built one (random degrees drawn under another seed): the
+            # restored network is the same function, so it must be autoregressive too
+            fresh = construct(dict(cfg, seed=cfg.get('seed', 0) + 7919), activation=ORACLE_ACTS[act], dropout=dropout)
+            fresh.load_state_dict(net.state_dict())
+            net = fresh
+            late = None
     except Exception:
         return None     # constructor contracts are the correspondence's business
     F, m, C = cfg['F'], cfg['m'], cfg['C']
